@@ -49,3 +49,25 @@ def message_clone_failure(mido, msg, what='message'):
         except Exception as e:      # noqa: BLE001
             return f'comparing the {how} of {msg!r} with it raised {type(e).__name__}: {e}'
     return None
+
+
+def abuse_vlq_helpers(mido, values=()):
+    """The public helpers of mido.midifiles.meta (and an UnknownMetaMessage), used the way programs use them: what they return
+    belongs to the caller (it is extended, decoded in place, overwritten, cleared).  None of that may change what is written
+    or encoded afterwards."""
+    from mido.midifiles import meta
+    for n in sorted(set(list(range(0, 131)) + [200, 255, 256, 300, 480, 960, 16383, 16384, 2097151, 2097152] + list(values))):
+        try:
+            enc = meta.encode_variable_int(n)
+            meta.decode_variable_int(enc)              # works on its argument in place
+            enc2 = meta.encode_variable_int(n)
+            if isinstance(enc2, list):
+                enc2 += [1, 2, 3]
+                enc2[0] = 0x7f
+            enc3 = meta.encode_variable_int(n)
+            if isinstance(enc3, list):
+                enc3.clear()
+            if 0 < n <= 300:
+                mido.UnknownMetaMessage(0x0a, [n % 128] * n).bytes()
+        except Exception:      # noqa: BLE001 - only the later behaviour is judged
+            pass
